@@ -32,7 +32,7 @@ CONSTANTS Scripts,   \* <<[host |-> "h1", ops |-> <<"loadp", "update", "demote">
           Modern     \* lock library breaks a dead same-host process' marker and JADE's deliberate (malformed) marker
 
 H == 1..Len(Scripts)
-Ops == {"load", "loadp", "promote", "demote", "update", "jsonly", "cancel", "complete"}
+Ops == {"load", "loadp", "promote", "demote", "update", "jsonly", "cancel", "complete", "recreate"}
 
 VARIABLES cfg, cfgVerF, js, jsVerF,   \* disk
           lock,                        \* "free" | "deliberate" | "dead" (marker of a killed process)
@@ -54,7 +54,7 @@ Init ==
   /\ cfg = [sub |-> None, pay |-> 0, canceled |-> FALSE, complete |-> FALSE, ver |-> 2] /\ cfgVerF = 2
   /\ js = [pay |-> 0, ver |-> 1] /\ jsVerF = 1
   /\ lock = "free" /\ deadHost = None
-  /\ hd = [h \in H |-> [pc |-> 1, loaded |-> FALSE, cfg |-> NoCfg, wcfg |-> NoCfg, js |-> NoJs, role |-> FALSE]]
+  /\ hd = [h \in H |-> [pc |-> 1, loaded |-> FALSE, cfg |-> NoCfg, wcfg |-> NoCfg, js |-> NoJs, role |-> FALSE, gen |-> 0]]
   /\ m = MonInit(Scn) /\ path = <<>> /\ elog = <<>>
 
 RawOp(h) == Scripts[h].ops[hd[h].pc]
@@ -64,6 +64,9 @@ CrashTable == ("loadp!1" :> <<"loadp", 1>>) @@ ("promote!1" :> <<"promote", 1>>)
 Op(h) == IF RawOp(h) \in DOMAIN CrashTable THEN CrashTable[RawOp(h)][1] ELSE RawOp(h)
 CrashAt(h) == IF RawOp(h) \in DOMAIN CrashTable THEN CrashTable[RawOp(h)][2] ELSE 0
 Host(h) == Scripts[h].host
+\* which incarnation of the output directory a handle belongs to (`submit-jobs --force` removes the directory and creates
+\* the submission anew: "recreate"); the current incarnation is the newest one any handle has seen
+Gen == CHOOSE g \in {hd[h].gen : h \in H} : \A x \in H : hd[x].gen <= g
 \* the lock can be taken: no marker, or a marker the lock library breaks
 Avail(h) == lock = "free" \/ (Modern /\ (lock = "deliberate" \/ (lock = "dead" /\ deadHost = Host(h))))
 
@@ -126,12 +129,12 @@ Skip(h) ==
 
 \* a process whose load failed has no Cluster object: its script ends
 Abort(h) ==
-  /\ hd[h].pc <= Len(Scripts[h].ops) /\ ~hd[h].loaded /\ Op(h) \notin {"load", "loadp"}
+  /\ hd[h].pc <= Len(Scripts[h].ops) /\ ~hd[h].loaded /\ Op(h) \notin {"load", "loadp", "recreate"}
   /\ hd' = [hd EXCEPT ![h].pc = Len(Scripts[h].ops) + 1] /\ Feed(<<"Skip", h>>, <<>>)
   /\ UNCHANGED <<cfg, cfgVerF, js, jsVerF, lock, deadHost>>
 
 Blocked(h) ==
-  /\ hd[h].pc <= Len(Scripts[h].ops) /\ ~Avail(h) /\ ~Skippable(h)
+  /\ hd[h].pc <= Len(Scripts[h].ops) /\ ~Avail(h) /\ ~Skippable(h) /\ Op(h) # "recreate"
   /\ (hd[h].loaded \/ Op(h) \in {"load", "loadp"})
   /\ Advance(h, hd[h])
   /\ Feed(<<"Blocked", h>>, <<EvCop(h, Op(h), "Timeout", FALSE, FALSE, FALSE, FALSE)>>)
@@ -140,7 +143,7 @@ Blocked(h) ==
 \* Cluster.deserialize(path, try_promote_to_submitter=p, deserialize_jobs=True): a fresh handle
 Load(h, p) ==
   /\ hd[h].pc <= Len(Scripts[h].ops) /\ Avail(h) /\ ~Dies(h) /\ Op(h) = (IF p THEN "loadp" ELSE "load")
-  /\ LET fresh == [hd[h] EXCEPT !.loaded = TRUE, !.cfg = cfg, !.wcfg = NoCfg, !.js = js, !.role = FALSE] IN
+  /\ LET fresh == [hd[h] EXCEPT !.loaded = TRUE, !.cfg = cfg, !.wcfg = NoCfg, !.js = js, !.role = FALSE, !.gen = Gen] IN
      IF p /\ cfg.sub = None
        THEN LET c == [cfg EXCEPT !.sub = Host(h)]
                 r == Ser(h, c) IN       \* wcfg of a fresh handle is empty: always a write
@@ -156,6 +159,20 @@ Load(h, p) ==
        ELSE /\ Advance(h, fresh)
             /\ Feed(<<"Load", h>>, <<[EvCop(h, Op(h), "", FALSE, FALSE, FALSE, FALSE) EXCEPT !.hcver = cfg.ver, !.hjver = js.ver]>>)
             /\ Release /\ UNCHANGED <<cfg, cfgVerF, js, jsVerF>>
+
+\* `jade submit-jobs --force` on the existing output directory (cli/submit_jobs.py: rmtree, then Cluster.create): whatever
+\* was there -- state files, version files, a marker left behind -- is gone; the new submission starts at versions 1/1 with
+\* its creator as submitter.  Processes of the old submission that are still alive keep their handles (copies ahead of the
+\* new files' versions): everything they try afterwards is a stale write.
+Recreate(h) ==
+  /\ hd[h].pc <= Len(Scripts[h].ops) /\ Op(h) = "recreate"
+  /\ LET c1 == [sub |-> Host(h), pay |-> 0, canceled |-> FALSE, complete |-> FALSE, ver |-> 1]
+         s1 == [pay |-> 0, ver |-> 1] IN
+     /\ cfg' = c1 /\ cfgVerF' = 1 /\ js' = s1 /\ jsVerF' = 1
+     /\ Advance(h, [hd[h] EXCEPT !.loaded = TRUE, !.cfg = c1, !.wcfg = c1, !.js = s1, !.role = TRUE, !.gen = Gen + 1])
+     /\ Release
+     /\ Feed(<<"Recreate", h>>, <<[EvCop(h, "recreate", "", TRUE, TRUE, TRUE, TRUE) EXCEPT !.loaded = FALSE, !.before = None,
+                                                                                          !.hcver = 0, !.hjver = 0]>>)
 
 \* a cfg-only operation on an existing handle: promote_to_submitter / demote_from_submitter / mark_canceled / mark_complete
 \* (the role is a matter of the submitter field alone: a complete submission with a holder still refuses promotion)
@@ -235,7 +252,7 @@ Crash(h) ==
   /\ Feed(<<"Crash", h>>, <<[e |-> "kill", pid |-> h]>>)
 
 Next == \E h \in H : Skip(h) \/ Abort(h) \/ Blocked(h) \/ Load(h, TRUE) \/ Load(h, FALSE) \/ CfgOp(h) \/ JsOp(h) \/ Update(h)
-                      \/ Crash(h)
+                      \/ Crash(h) \/ Recreate(h)
 Spec == Init /\ [][Next]_vars
 
 View == <<cfg, cfgVerF, js, jsVerF, lock, deadHost, hd, [m EXCEPT !.pos = 0, !.vpos = <<>>, !.cnt = <<>>]>>
@@ -244,8 +261,9 @@ Finished == \A h \in H : hd[h].pc > Len(Scripts[h].ops)
 \* ---- C10
 P_C10 == Holds(m, "C10")
 \* at most one handle between a successful promotion and its demotion
-N_OneRole == Cardinality({h \in H : hd[h].role}) <= 1
-N_RoleMatchesDisk == \A h \in H : hd[h].role => cfg.sub = Host(h)
+\* (among the handles of the current incarnation of the directory)
+N_OneRole == Cardinality({h \in H : hd[h].role /\ hd[h].gen = Gen}) <= 1
+N_RoleMatchesDisk == \A h \in H : (hd[h].role /\ hd[h].gen = Gen) => cfg.sub = Host(h)
 N_VersionFilesAgree == cfg.ver = cfgVerF /\ js.ver = jsVerF
 \* with crashes: a version file is never behind its data file (the order of the two writes), and is ahead only after a crash
 N_VersionFileNeverBehind == cfgVerF >= cfg.ver /\ jsVerF >= js.ver
